@@ -159,4 +159,280 @@ theorem C10_config_last_wins (st st' : Config.State) (v : String)
       simp [hnone]
   · simp at h
 
+/-! ## Term level: `newGroup` on the state `trainGroup` leaves
+
+`C10_new_group_block` / `C10_zero_rows` above are about the building blocks.  The theorems below
+are about the model's own `newGroup` (`GroupSpecificTerm.eval_new_data`) applied to the state
+remembered by `trainGroup`, for every training frame, every new frame, every number of grouping
+components and every effect.  `cols` are the grouping values read from the new frame
+(`newFactorColumns`), `rowCell … r` the cell of new row `r` among the *training* levels (`none`:
+some grouping value of the row was not seen in training), `C05.cells` the number of training
+cells `G`.  The coding hypothesis `C05.IndicatorCoded` is the one of C05 (it holds for plain
+variables and Treatment-coded factors; see `C05_plain_factor_indicatorCoded`). -/
+
+open C05 in
+/-- the state `trainGroup` leaves is a trained grouping factor -/
+theorem factorState_of_trainGroup (env : Env) (table : List (String × Expr)) (spec : GroupSpec)
+    (out : GroupOut) (h : trainGroup env table spec = .ok out) (ht : C05.IndicatorCoded out.st) :
+    FactorState out.st.factor.comps :=
+  ⟨(trainGroup_factor_state env table spec out h).1, ht⟩
+
+/-- **new-group rule, `error` mode**: if the effect part evaluates and some grouping value of the
+new data was not seen in training, the evaluation raises the unseen-levels ValueError. -/
+theorem C10_newGroup_error (env : Env) (table : List (String × Expr)) (spec : GroupSpec) (out : GroupOut)
+    (h : trainGroup env table spec = .ok out) (ht : C05.IndicatorCoded out.st)
+    (env' : Env) (cols : List (List (Option Level)))
+    (hcols : newFactorColumns out.st.factor.comps env' = .ok cols)
+    (p : Matrix × Bool) (hp : newEffect out.st env' .error = .ok p)
+    (hu : anyUnseen out.st.factor.comps cols = true) :
+    newGroup out.st env' .error = .error (.valueError "levels not present in the original data set") :=
+  newGroup_error out.st (factorState_of_trainGroup env table spec out h ht) env' cols hcols p hp hu
+
+/-- **new-group rule, the block** (all modes).  If `newGroup` returns `(M, w)` then: in `error`
+mode no grouping value is unseen; a warning is issued iff the effect part warned or (mode
+`warning` and some value is unseen); and every row `r` of `M` is the Kronecker row of an indicator
+row with the effect row `x = X[r]`:
+* if no row of the new indicator matrix is unseen — the training structure, `G` slots, the row's
+  own cell carries `x`;
+* if some row is unseen — `G + 1` slots: a row of a known cell keeps its training slot, a row
+  with an unseen grouping value is zero in all `G` training slots and carries `x` in the appended
+  slot `G`. -/
+theorem C10_newGroup_block (env : Env) (table : List (String × Expr)) (spec : GroupSpec) (out : GroupOut)
+    (h : trainGroup env table spec = .ok out) (ht : C05.IndicatorCoded out.st)
+    (env' : Env) (mode : UnseenMode) (cols : List (List (Option Level)))
+    (hcols : newFactorColumns out.st.factor.comps env' = .ok cols)
+    (M : Matrix) (w : Bool) (hnew : newGroup out.st env' mode = .ok (M, w)) :
+    ∃ X w1, newEffect out.st env' mode = .ok (X, w1) ∧
+      (mode = .error → anyUnseen out.st.factor.comps cols = false) ∧
+      w = (w1 || (anyUnseen out.st.factor.comps cols && mode == .warning)) ∧
+      ∀ r (hr : r < M.length), ∃ x, X[r]? = some x ∧
+        ((∀ r', r' < (newFactorMatrix out.st.factor.comps cols).length →
+            (rowCell (out.st.factor.comps.map (·.levels)) cols r').isSome = true) →
+          ∃ ps, rowCell (out.st.factor.comps.map (·.levels)) cols r = some ps ∧
+            cellIndex 0 ps < C05.cells out.st ∧
+            M[r] = rowProd (C05.indicatorRow (C05.cells out.st) (cellIndex 0 ps)) x) ∧
+        ((∃ r', r' < (newFactorMatrix out.st.factor.comps cols).length ∧
+            rowCell (out.st.factor.comps.map (·.levels)) cols r' = none) →
+          (∀ ps, rowCell (out.st.factor.comps.map (·.levels)) cols r = some ps →
+            M[r] = rowProd (C05.indicatorRow (C05.cells out.st + 1) (cellIndex 0 ps)) x) ∧
+          (rowCell (out.st.factor.comps.map (·.levels)) cols r = none →
+            M[r] = rowProd (C05.indicatorRow (C05.cells out.st + 1) (C05.cells out.st)) x)) := by
+  obtain ⟨X, w1, hX, hne, hw, hany, hrows⟩ :=
+    newGroup_block out.st (factorState_of_trainGroup env table spec out h ht) env' mode cols hcols M w hnew
+  refine ⟨X, w1, hX, ?_, hw, ?_⟩
+  · intro hm
+    subst hm
+    simpa using hne
+  · intro r hr
+    obtain ⟨x, hx, hrJ, hA, hB⟩ := hrows r hr
+    refine ⟨x, hx, ?_, ?_⟩
+    · intro hall
+      apply hA
+      cases hz : (newFactorMatrix out.st.factor.comps cols).any isZeroRow with
+      | false => rfl
+      | true =>
+        obtain ⟨r', hr', hnone⟩ := hany.1 hz
+        have := hall r' hr'
+        rw [hnone] at this
+        exact absurd this (by decide)
+    · intro hex
+      have hB' := hB (hany.2 hex)
+      constructor
+      · intro ps hps
+        rw [hps] at hB'
+        exact hB'
+      · intro hnone
+        rw [hnone] at hB'
+        exact hB'
+
+/-- … entry by entry for a row with an unseen grouping value: all `G` training slots hold
+`0 · x[k]` (`0` where the effect value is a number, NaN where it is NaN), the appended slot holds
+the effect row. -/
+theorem C10_newGroup_unseen_entries (G : Nat) (x : List Entry) (row : List Entry)
+    (hrow : row = rowProd (C05.indicatorRow (G + 1) G) x) :
+    row.length = (G + 1) * x.length ∧
+    ∀ g' k (_ : g' < G + 1) (hk : k < x.length),
+      row[g' * x.length + k]? = some (if g' = G then x[k] else x[k].map (fun _ => 0)) := by
+  subst hrow
+  refine ⟨C05.C05_block_width _ _ _, ?_⟩
+  intro g' k hg' hk
+  rw [C05.C05_block_row _ _ x g' k hg' hk]
+  by_cases hg : g' = G
+  · simp [hg, C05.entry_one_mul]
+  · simp [hg, C05.entry_zero_mul]
+
+/-- **new-group rule for a single plain grouping variable** `(e | g)`: no coding hypothesis.
+`levels` are the training levels (the specification's `componentLevels` on the training frame),
+`xs'` the values of `g` in the new frame (the specification's `componentValues` on the new frame),
+`G = |levels|`.  `error` mode: no unseen value (else `C10_newGroup_error`).  Otherwise, row by row:
+no unseen value anywhere — the training structure; some unseen value — `G + 1` slots, a known
+group `g` keeps slot `g`, an unseen (or missing) group is zero in the `G` training slots and
+carries the effect row in slot `G`. -/
+theorem C10_newGroup_single (env : Env) (table : List (String × Expr)) (spec : GroupSpec) (out : GroupOut)
+    (name : String) (flag : Bool) (x : Token)
+    (hf : spec.factor.comps = [(name, flag)]) (hx : compExpr table name = .ok (.variable x))
+    (h : trainGroup env table spec = .ok out)
+    (env' : Env) (mode : UnseenMode) (cols : List (List (Option Level)))
+    (hcols : newFactorColumns out.st.factor.comps env' = .ok cols)
+    (M : Matrix) (w : Bool) (hnew : newGroup out.st env' mode = .ok (M, w)) :
+    ∃ c xs' X w1, out.st.factor.comps = [c] ∧
+      Spec.C05.componentLevels env table name = .ok c.levels ∧ cols = [xs'] ∧
+      Spec.C05.componentValues env' table name = .ok xs' ∧
+      newEffect out.st env' mode = .ok (X, w1) ∧
+      (mode = .error → xs'.any (isUnseen c.levels) = false) ∧
+      w = (w1 || (xs'.any (isUnseen c.levels) && mode == .warning)) ∧
+      ∀ r (hr : r < M.length), ∃ xr, X[r]? = some xr ∧ r < xs'.length ∧
+        (xs'.any (isUnseen c.levels) = false → ∃ l g, xs'[r]? = some (some l) ∧
+          indexOf? l c.levels = some g ∧ g < c.levels.length ∧
+          M[r] = rowProd (C05.indicatorRow c.levels.length g) xr) ∧
+        (xs'.any (isUnseen c.levels) = true →
+          (∀ g, levelIndex c.levels (xs'.getD r none) = some g →
+            M[r] = rowProd (C05.indicatorRow (c.levels.length + 1) g) xr) ∧
+          (isUnseen c.levels (xs'.getD r none) = true →
+            M[r] = rowProd (C05.indicatorRow (c.levels.length + 1) c.levels.length) xr)) := by
+  obtain ⟨c, hc, hname, hexpr, hlevels, ht, hcells⟩ := C05.C05_single_component env table spec out name flag x hf hx h
+  have hS := factorState_of_trainGroup env table spec out h ht
+  obtain ⟨X, w1, hX, hne, hw, hany, hrows⟩ := newGroup_block out.st hS env' mode cols hcols M w hnew
+  -- the one new column
+  rw [hc] at hcols
+  simp only [newFactorColumns, List.mapM_cons, List.mapM_nil, bind_ok, pure_ok] at hcols
+  obtain ⟨xs', ⟨v', hv', hxs'⟩, _, rfl, rfl⟩ := hcols
+  have hcall : isCallLike c.expr = false := by rw [hexpr]; rfl
+  rw [newFactorVal_plain c env' hcall, hname, hexpr] at hv'
+  have hvals := componentValues_eq env' table name _ hx rfl v' xs' hv' hxs'
+  -- the indicator matrix of one component
+  have hJ : newFactorMatrix out.st.factor.comps [xs'] = xs'.map (indRow c.levels) := by
+    simp [newFactorMatrix, hc, reduceMatrices]
+  have hcell : ∀ r, rowCell (out.st.factor.comps.map (·.levels)) [xs'] r =
+      (levelIndex c.levels (xs'.getD r none)).map (fun g => [(c.levels.length, g)]) := by
+    intro r
+    simp only [hc, List.map_cons, List.map_nil, rowCell, List.zip_cons_cons, List.zip_nil_right,
+      List.mapM_cons, List.mapM_nil]
+    cases levelIndex c.levels (xs'.getD r none) <;> rfl
+  have hunseen : anyUnseen out.st.factor.comps [xs'] = xs'.any (isUnseen c.levels) := by
+    simp [anyUnseen, hc]
+  have hG : cellCount 1 (out.st.factor.comps.map (·.levels.length)) = c.levels.length := hcells
+  have hzero : (newFactorMatrix out.st.factor.comps [xs']).any isZeroRow = xs'.any (isUnseen c.levels) := by
+    rw [Bool.eq_iff_iff, hany, hJ, List.any_eq_true]
+    simp only [List.length_map]
+    constructor
+    · rintro ⟨r, hr, hnone⟩
+      rw [hcell r] at hnone
+      have : levelIndex c.levels (xs'.getD r none) = none := by
+        cases hli : levelIndex c.levels (xs'.getD r none) with
+        | none => rfl
+        | some g => rw [hli] at hnone; simp at hnone
+      refine ⟨xs'[r], List.getElem_mem hr, ?_⟩
+      rw [← levelIndex_none_iff]
+      simpa [List.getD_eq_getElem?_getD, List.getElem?_eq_getElem hr] using this
+    · rintro ⟨xv, hmem, hu⟩
+      obtain ⟨r, hr, rfl⟩ := List.mem_iff_getElem.1 hmem
+      refine ⟨r, hr, ?_⟩
+      rw [hcell r]
+      have : levelIndex c.levels (xs'.getD r none) = none := by
+        rw [levelIndex_none_iff]
+        simpa [List.getD_eq_getElem?_getD, List.getElem?_eq_getElem hr] using hu
+      rw [this]; rfl
+  refine ⟨c, xs', X, w1, hc, hlevels, rfl, hvals, hX, ?_, ?_, ?_⟩
+  · intro hm
+    subst hm
+    rw [hunseen] at hne
+    simpa using hne
+  · rw [hw, hunseen]
+  · intro r hr
+    obtain ⟨xr, hxr, hrJ, hA, hB⟩ := hrows r hr
+    rw [hJ, List.length_map] at hrJ
+    rw [hzero, hG] at hA hB
+    refine ⟨xr, hxr, hrJ, ?_, ?_⟩
+    · intro hfalse
+      obtain ⟨ps, hps, _, hrow⟩ := hA hfalse
+      rw [hcell r] at hps
+      cases hli : levelIndex c.levels (xs'.getD r none) with
+      | none => rw [hli] at hps; simp at hps
+      | some g =>
+        rw [hli] at hps
+        simp only [Option.map_some, Option.some.injEq] at hps
+        subst hps
+        have hg := levelIndex_lt _ _ _ hli
+        have hget : xs'.getD r none = xs'[r] := by
+          simp [List.getD_eq_getElem?_getD, List.getElem?_eq_getElem hrJ]
+        rw [hget] at hli
+        cases hxv : xs'[r] with
+        | none => rw [hxv] at hli; simp [levelIndex] at hli
+        | some l =>
+          rw [hxv] at hli
+          refine ⟨l, g, by rw [List.getElem?_eq_getElem hrJ, hxv], by simpa [levelIndex] using hli, hg, ?_⟩
+          rw [hrow]
+          simp [cellIndex, C05.unitE_eq_indicatorRow]
+    · intro htrue
+      have hrow := hB htrue
+      rw [hcell r] at hrow
+      constructor
+      · intro g hg
+        rw [hg] at hrow
+        rw [hrow]
+        simp [cellIndex, C05.unitE_eq_indicatorRow]
+      · intro hu
+        have : levelIndex c.levels (xs'.getD r none) = none := (levelIndex_none_iff _ _).2 hu
+        rw [this] at hrow
+        rw [hrow]
+        simp [C05.unitE_eq_indicatorRow]
+
+/-! ### non-vacuity: `(x | g)` trained on groups b, a, b; new data with the groups a, z -/
+
+def exNew : Env :=
+  { frame := [⟨"g", .string, [.str "a", .str "z"]⟩, ⟨"x", .numeric false, [.num 3, .num 5]⟩] }
+def exKnown : Env :=
+  { frame := [⟨"g", .string, [.str "a", .str "b"]⟩, ⟨"x", .numeric false, [.num 3, .num 5]⟩] }
+
+def newOf (r : M GroupOut) (env' : Env) (mode : UnseenMode) : Option (Option (Matrix × Bool)) :=
+  match r with
+  | .ok o => some (match newGroup o.st env' mode with
+    | .ok p => some p
+    | .error _ => none)
+  | .error _ => none
+
+-- z is unseen: silent / warning append the slot, error raises; without unseen groups nothing is appended
+example : newOf (trainGroup C05.exEnv C05.exTable C05.exSlope) exNew .silent =
+    some (some ([[some 3, some 0, some 0], [some 0, some 0, some 5]], false)) := by decide +kernel
+example : newOf (trainGroup C05.exEnv C05.exTable C05.exSlope) exNew .warning =
+    some (some ([[some 3, some 0, some 0], [some 0, some 0, some 5]], true)) := by decide +kernel
+example : newOf (trainGroup C05.exEnv C05.exTable C05.exSlope) exNew .error = some none := by
+  decide +kernel
+example : newOf (trainGroup C05.exEnv C05.exTable C05.exSlope) exKnown .error =
+    some (some ([[some 3, some 0], [some 0, some 5]], false)) := by decide +kernel
+-- the hypotheses of the theorems hold for this input
+example : C05.holdsOf (trainGroup C05.exEnv C05.exTable C05.exSlope) (fun o =>
+    decide (C05.IndicatorCoded o.st) &&
+    C05.okEq (newFactorColumns o.st.factor.comps exNew) [[some (.s "a"), some (.s "z")]] &&
+    anyUnseen o.st.factor.comps [[some (.s "a"), some (.s "z")]] &&
+    C05.okEq (newEffect o.st exNew .error) ([[some 3], [some 5]], false) &&
+    (rowCell (o.st.factor.comps.map (·.levels)) [[some (.s "a"), some (.s "z")]] 0 == some [(2, 0)]) &&
+    (rowCell (o.st.factor.comps.map (·.levels)) [[some (.s "a"), some (.s "z")]] 1 == none) &&
+    (newFactorMatrix o.st.factor.comps [[some (.s "a"), some (.s "z")]]).length == 2) = true := by
+  decide +kernel
+
+-- the instance of the single-variable theorem
+example : ∀ out M w, trainGroup C05.exEnv C05.exTable C05.exSlope = .ok out →
+    newFactorColumns out.st.factor.comps exNew = .ok [[some (.s "a"), some (.s "z")]] →
+    newGroup out.st exNew .silent = .ok (M, w) →
+    ∃ c xs' X w1, out.st.factor.comps = [c] ∧
+      Spec.C05.componentLevels C05.exEnv C05.exTable "g" = .ok c.levels ∧
+      [[some (Level.s "a"), some (Level.s "z")]] = [xs'] ∧
+      Spec.C05.componentValues exNew C05.exTable "g" = .ok xs' ∧
+      newEffect out.st exNew .silent = .ok (X, w1) ∧
+      (UnseenMode.silent = .error → xs'.any (isUnseen c.levels) = false) ∧
+      w = (w1 || (xs'.any (isUnseen c.levels) && UnseenMode.silent == .warning)) ∧
+      ∀ r (hr : r < M.length), ∃ xr, X[r]? = some xr ∧ r < xs'.length ∧
+        (xs'.any (isUnseen c.levels) = false → ∃ l g, xs'[r]? = some (some l) ∧
+          indexOf? l c.levels = some g ∧ g < c.levels.length ∧
+          M[r] = rowProd (C05.indicatorRow c.levels.length g) xr) ∧
+        (xs'.any (isUnseen c.levels) = true →
+          (∀ g, levelIndex c.levels (xs'.getD r none) = some g →
+            M[r] = rowProd (C05.indicatorRow (c.levels.length + 1) g) xr) ∧
+          (isUnseen c.levels (xs'.getD r none) = true →
+            M[r] = rowProd (C05.indicatorRow (c.levels.length + 1) c.levels.length) xr)) :=
+  fun out M w h hcols hnew => C10_newGroup_single C05.exEnv C05.exTable C05.exSlope out "g" false
+    (C05.tk .IDENTIFIER "g") rfl rfl h exNew .silent _ hcols M w hnew
+
 end FormulaeModel.C10
